@@ -3,6 +3,7 @@ import PdModel.Model.StoreSim
 import PdModel.Spec.C09
 import PdModel.Lemmas.OpCtl
 import PdModel.Lemmas.OpCtlInv
+import PdModel.Lemmas.OpCtlRecords
 import PdModel.Generated.OpCtl
 set_option linter.unusedSimpArgs false
 set_option linter.unusedVariables false
@@ -210,6 +211,54 @@ theorem leaving_running_set_is_ended (c : Ctl) (hi : Inv c) (e : Ev) (k : Nat) (
   | replaced => have := reach_from_end hrel.status (by rw [hs]; rfl); rw [this, hs]; rfl
   | expired => have := reach_from_end hrel.status (by rw [hs]; rfl); rw [this, hs]; rfl
   | timeout => have := reach_from_end hrel.status (by rw [hs]; rfl); rw [this, hs]; rfl
+
+/-! ### "... and recorded" – proved at the sites, not yet as a run invariant -/
+
+/-- **leaving_running_set_is_recorded_at_sites_partial**: the "and recorded" half of the clause, proved
+    for the code shape shared by *every* place of the controller model that removes an operator from the
+    running map (`removeOperatorLocked` succeeded → status move → `buryOperator`): whatever end move is
+    attempted, afterwards the operator is ended, it is the record of its region, and nothing runs on the
+    region.  `_partial`: the statement is per site; that a whole event leaves no other way out of the
+    running map is checked by the monitor (`C09.left-running-set-not-recorded`), not proved. -/
+theorem leaving_running_set_is_recorded_at_sites_partial (c : Ctl) (o : Op) (dst : Status)
+    (hg : c.getOp o.id = some o) (hrm : (removeLocked c o).2 = true) :
+    ∃ o', (bury ((removeLocked c o).1.setOp (o.to dst).1) o.id).getOp o.id = some o' ∧
+      o'.status.isEnd = true ∧ o'.region = o.region ∧
+      (bury ((removeLocked c o).1.setOp (o.to dst).1) o.id).recordOn o.region = some o.id ∧
+      (bury ((removeLocked c o).1.setOp (o.to dst).1) o.id).runningOn o.region = none :=
+  leave_site_recorded c o dst hg hrm
+
+/-- `RemoveOperator` (admin removal, success, timeout and stale branches all call it): success means
+    ended + recorded + region free. -/
+theorem remove_operator_ends_and_records (c : Ctl) (id : Nat) (o : Op) (h : c.getOp id = some o)
+    (hr : (removeOperator c id).2 = true) :
+    ∃ o', (removeOperator c id).1.getOp id = some o' ∧ o'.status.isEnd = true ∧ o'.region = o.region ∧
+      (removeOperator c id).1.recordOn o.region = some id ∧
+      (removeOperator c id).1.runningOn o.region = none :=
+  removeOperator_recorded c id o h hr
+
+/-- the operator displaced by a higher-priority one is ended and recorded before the new one starts -/
+theorem replaced_operator_ends_and_is_recorded (c : Ctl) (region oldId : Nat) (old : Op)
+    (hrun : c.runningOn region = some oldId) (hg : c.getOp oldId = some old) (hreg : old.region = region) :
+    ∃ o', (replaceOld c region).getOp oldId = some o' ∧ o'.status.isEnd = true ∧ o'.region = region ∧
+      (replaceOld c region).recordOn region = some oldId ∧
+      (replaceOld c region).runningOn region = none :=
+  replaceOld_recorded c region oldId old hrun hg hreg
+
+/-- records only ever name ended operators of the right region: kept by `buryOperator` (the only writer
+    of `records`) and by every step that leaves `records` alone (statuses only move along the matrix, and an
+    ended operator cannot move). -/
+theorem records_name_ended_operators (c : Ctl) (hi : RecInv c) :
+    (∀ id, RecInv (bury c id)) ∧
+    (∀ c', Le c c' → c'.records = c.records → RecInv c') :=
+  ⟨fun id => recInv_bury c id hi, fun c' hle hrec => recInv_of_le c c' hle hrec hi⟩
+
+/-- non-vacuity: a running operator, removed -/
+example :
+    let o : Op := { (default : Op) with id := 7, region := 3, status := .started }
+    let c : Ctl := { ops := [o], running := [(3, 7)] }
+    (removeOperator c 7).2 = true ∧ (removeOperator c 7).1.recordOn 3 = some 7 ∧
+      ((removeOperator c 7).1.getOp 7).map (·.status) = some .canceled := by decide
 
 /-! ### admission -/
 
